@@ -9,7 +9,7 @@ class Raised:
     """Outcome of a library call that raised."""
 
     def __init__(self, exc):
-        self.exc = exc
+        # keep strings only: the exception's traceback would keep the frames (and every TT object in them) alive
         self.type = type(exc).__name__
         tb = traceback.extract_tb(exc.__traceback__)
         inner = [f for f in tb if '/torchtt/' in f.filename]
@@ -17,6 +17,7 @@ class Raised:
         self.where = '%s:%s:%d' % (f.filename.rsplit('/', 1)[-1], f.name, f.lineno) if f else '?'
         self.func = f.name if f else '?'
         self.msg = str(exc)[:200]
+        exc.__traceback__ = None
 
     def __repr__(self):
         return 'Raised(%s at %s: %s)' % (self.type, self.where, self.msg)
